@@ -499,6 +499,46 @@ func (f *filler) mutateMsg(msg proto.Message, depth int) []string {
 	return touched
 }
 
+// absentField removes exactly one optional sub-message (pointer / Any / repeated field) of msg, possibly inside a packed Any —
+// the wire form of "field not present". Returns the name of the removed field ("" if there is nothing to remove).
+func (f *filler) absentField(msg proto.Message, depth int) string {
+	r := f.r
+	var ls, anys []leaf
+	collectLeaves(reflect.ValueOf(msg).Elem(), "", 0, &ls, &anys)
+	var ptrs []leaf
+	for _, l := range ls {
+		if (l.v.Kind() == reflect.Ptr || l.v.Kind() == reflect.Slice) && !l.v.IsNil() && l.v.CanSet() {
+			ptrs = append(ptrs, l)
+		}
+	}
+	// descend into a packed Any
+	var packed []leaf
+	for _, a := range anys {
+		if a.v.Kind() == reflect.Ptr && !a.v.IsNil() {
+			if inner, ok := a.v.Interface().(*codectypes.Any).GetCachedValue().(proto.Message); ok && inner != nil {
+				packed = append(packed, a)
+			}
+			ptrs = append(ptrs, a)
+		}
+	}
+	if len(packed) > 0 && depth < 3 && r.Chance(2, 3) {
+		a := kit.Pick(r, packed)
+		inner := a.v.Interface().(*codectypes.Any).GetCachedValue().(proto.Message)
+		if cp := f.clone(inner); cp != nil {
+			if sub := f.absentField(cp, depth+1); sub != "" {
+				a.v.Set(reflect.ValueOf(packAny(cp)))
+				return a.name + ">" + sub
+			}
+		}
+	}
+	if len(ptrs) == 0 {
+		return ""
+	}
+	l := kit.Pick(r, ptrs)
+	l.v.Set(reflect.Zero(l.v.Type()))
+	return l.name
+}
+
 func typeShort(t reflect.Type) string {
 	for t.Kind() == reflect.Ptr {
 		t = t.Elem()
